@@ -48,16 +48,23 @@ def do_move(move, parent, F, fk="set", ij=None):
         return parent.swapRandChargeRes(set(F))
     if move == "get_shuffled_sequence":
         from localcider.sequenceParameters import SequenceParameters as SP
-        return SP(SeqObj=parent).get_shuffled_sequence(as_frozen(F, fk)).SeqObj
+        w = SP(SeqObj=parent).get_shuffled_sequence(as_frozen(F, fk))
+        _wrapper[id(w.SeqObj)] = w
+        return w.SeqObj
     if move == "get_permutant":
         from localcider.sequencePermutants import SequencePermutants
         sp = SequencePermutants(parent.seq)
-        return sp.get_permutant().SeqObj
+        w = sp.get_permutant()
+        _wrapper[id(w.SeqObj)] = w
+        return w.SeqObj
     if move == "permute_block_swap":
         return parent.permute_block_swap(set(F))
     if move == "permute_cluster_charges":
         return parent.permute_cluster_charges(set(F))
     raise KeyError(move)
+
+
+_wrapper = {}      # id(backend object) -> the SequenceParameters object the public entry point returned (kept alive here)
 
 
 def snap(o):
@@ -93,6 +100,17 @@ def judge(root_seq, parent_seq, parent_before, parent, child, F, move, case):
     if moved and move != "get_permutant":
         v("frozen-position-changed:" + move, "%s on %s with frozen %r returned %s: frozen position(s) %r changed"
           % (move, parent_seq, sorted(F), cs, moved))
+    w = _wrapper.pop(id(child), None)
+    _wrapper.clear()
+    if w is not None:
+        # the public object that was actually returned describes the same sequence as its backend object
+        try:
+            obs = (w.get_sequence(), w.get_length(), len(w), w.get_countPos() + w.get_countNeg() + w.get_countNeut())
+        except Exception as e:  # noqa
+            obs = ("raised %r" % e,)
+        if obs != (cs, len(cs), len(cs), len(cs)):
+            v("returned-object-inconsistent:" + move, "%s on %s: the returned SequenceParameters reports (sequence, length, len, n+ + n- + n0) = %r "
+              "but its residues are %s" % (move, parent_seq, obs, cs))
     fresh = m.Sequence(cs)
     if child.len != len(cs):
         v("child-len:" + move, "%s: child.len=%r for %s" % (move, child.len, cs))
@@ -113,6 +131,26 @@ def judge(root_seq, parent_seq, parent_before, parent, child, F, move, case):
             v("carried-dmax:" + move, "%s on %s -> %s: carried delta-max %r, a fresh object computes %r" % (move, parent_seq, cs, child.dmax, fd))
     if child is not parent and parent_before is not None and snap(parent) != parent_before:
         v("parent-altered:" + move, "%s altered the object it was called on (%s)" % (move, parent_seq))
+    if case.get("light") and not out and (parent_seq, move, cs) not in _perm_seen:
+        # the returned object asked for its delta-max PERMUTANT (C03's clause, on a derived object): once per (parent, move, child)
+        _perm_seen.add((parent_seq, move, cs))
+        if len(_perm_seen) > 300000:
+            _perm_seen.clear()
+        try:
+            res = child.deltaMax(returnSeqDeltaMax=True)
+            if not (isinstance(res, tuple) and len(res) == 2 and isinstance(res[1], str) and sorted(res[1]) == sorted(cs)):
+                v("child-deltamax-permutant:" + move, "%s on %s -> %s: deltaMax(returnSeqDeltaMax=True) of the returned object gives %r, "
+                  "not (value, rearrangement of its residues)" % (move, parent_seq, cs, res if not hasattr(res, "__len__") or len(res) != 2
+                                                                  else (res[0], getattr(res[1], "tolist", lambda: res[1])())))
+            else:
+                fd = fresh_dmax(cs)
+                dd = m.Sequence(res[1]).delta()
+                if not core.close(res[0], fd, 1e-12, 1e-15) or not core.close(dd, res[0], 1e-12, 1e-15):
+                    v("child-deltamax-permutant:" + move, "%s on %s -> %s: deltaMax(True) of the returned object = (%r, %s); a fresh object's "
+                      "delta-max is %r and delta(%s) = %r" % (move, parent_seq, cs, res[0], res[1], fd, res[1], dd))
+        except Exception as e:  # noqa
+            v("child-deltamax-permutant:" + move, "%s on %s -> %s: deltaMax(returnSeqDeltaMax=True) of the returned object raised %r"
+              % (move, parent_seq, cs, e))
     if case.get("light") and not out:
         try:
             lc, lf = light(child), light(fresh)
@@ -122,6 +160,9 @@ def judge(root_seq, parent_seq, parent_before, parent, child, F, move, case):
         except Exception as e:  # noqa
             v("child-analysis-differs:" + move, "%s -> %s: analyses of the returned object raised %r" % (move, cs, e))
     return out
+
+
+_perm_seen = set()
 
 
 def make_parent(seq, cached):
@@ -143,14 +184,45 @@ def light(o):
             round(float(o.meanHydropathy()), 12))
 
 
+_NVIOL = [0]
+CAP2 = 6000     # scenario trees (chains, two moves, shared frozen set) close well below this on the unchanged code
+
+
+def _capped(gen, acc):
+    """Pass executions through; a tree that reaches the cap is reported as capped (not exhaustive), never as a violation."""
+    n = 0
+    for item in gen:
+        n += 1
+        yield item
+    if n >= CAP2:
+        acc.capped += 1
+        acc.bump("scenario_trees_cut_at_%d_executions" % CAP2)
+
+
+class _Counter:
+    def __init__(self, limit):
+        self.limit = limit
+        self.n = 0
+
+
 # ------------------------------------------------------------------------------------------------ complete trees
 def run_complete(seq, cached, move, F, fk, acc, maxleaves=None):
     """All outcomes of the random draws of one (sequence, frozen, move)."""
     m = S()
+    orig_init = m.Sequence.__init__
+    ctr = _Counter(6)      # the unchanged moves construct at most 3 sequence objects; more means a retry loop: cut (makes waiting visible)
+
+    def counting_init(self, *a, **k):
+        ctr.n += 1
+        if ctr.n > ctr.limit:
+            raise C.Truncated("retry bound: more than %d sequence objects constructed inside one move" % ctr.limit)
+        return orig_init(self, *a, **k)
 
     def run(tape):
         parent = make_parent(seq, cached)
         before = snap(parent)
+        ctr.n = 0
+        m.Sequence.__init__ = counting_init
         try:
             child = do_move(move, parent, F, fk)
         except C.Truncated as e:
@@ -159,10 +231,19 @@ def run_complete(seq, cached, move, F, fk, acc, maxleaves=None):
             raise
         except Exception as e:  # noqa
             return ("raised", e, parent, before)
+        finally:
+            m.Sequence.__init__ = orig_init
         return ("ok", child, parent, before)
+    if _NVIOL[0] > 30:
+        acc.bump("trees_skipped_after_30_violating_trees")     # the check has failed many times over: no point in going on
+        return 0
     n = 0
-    for tape, res in C.explore(run, "complete", horizon=60, float_menu=MENU_HALF):
+    CAPX = 5000      # the unchanged code needs at most 720 executions per tree; a tree that does not close is cut and reported as capped
+    for tape, res in C.explore(run, "complete", horizon=60, float_menu=MENU_HALF, max_execs=CAPX):
         n += 1
+        if n == CAPX:
+            acc.bump("complete_trees_cut_at_%d_executions" % CAPX)
+            acc.capped += 1
         acc.traces += 1
         acc.transitions += 1
         acc.capped += tape.capped
@@ -171,6 +252,7 @@ def run_complete(seq, cached, move, F, fk, acc, maxleaves=None):
         tag, val, parent, before = res
         if tag == "truncated":
             acc.truncated += 1
+            acc.bump("complete_tree_executions_cut_by_retry_bound")
             continue
         if tag == "raised":
             acc.out((move, "raised", type(val).__name__))
@@ -179,8 +261,12 @@ def run_complete(seq, cached, move, F, fk, acc, maxleaves=None):
             continue
         acc.evaluations += 1
         acc.out((move, val.seq))
-        for x in judge(seq, seq, before, parent, val, F, move, case):
+        bad = judge(seq, seq, before, parent, val, F, move, case)
+        for x in bad:
             acc.viol(x["key"], x["what"], x["case"])
+        if bad:
+            _NVIOL[0] += 1
+            break              # one counterexample per tree is enough; the rest of this tree is not explored
         if n <= 2 and len(seq) >= 4 and val.seq != seq:
             acc.sample({"seq": seq, "move": move, "frozen": sorted(F), "tape": tape.choices(), "child": val.seq}, cap=3)
     return n
@@ -230,6 +316,11 @@ def shard_complete(s):
                             if fk in ("list", "tuple") and (len(F) > 2 or cached) and L >= 5:
                                 continue       # lists/tuples: frozen sets of up to two sites on uncached parents (sets: all)
                             run_complete(seq, cached, move, F, fk, acc)
+            # frozen sets with members OUTSIDE the sequence (exactly len, len+1, -1, far away): ignored, the move still succeeds
+            if L >= 2 and not cached:
+                for F in ({L}, {0, L}, {L + 1}, {-1}, {L - 1, L, L + 1, -1, 10 ** 6}):
+                    for move in ("full_shuffle", "get_shuffled_sequence", "swapRandChargeRes"):
+                        run_complete(seq, cached, move, set(F), "set", acc)
         if H.digest(H.package_state()) != w0:
             acc.viol("world-changed", "package state (defaults/globals) changed while running the moves on %s" % seq,
                      {"kind": "world", "seq": seq})
@@ -237,12 +328,6 @@ def shard_complete(s):
 
 
 # ------------------------------------------------------------------------------------------------ retry-loop moves
-class _Counter:
-    def __init__(self, limit):
-        self.limit = limit
-        self.n = 0
-
-
 def run_bounded(seq, cached, move, F, seed, bound, retry, acc, stream):
     m = S()
     orig_init = m.Sequence.__init__
@@ -359,7 +444,7 @@ def explore_chain(root, cached, acc):
                 except Exception as e:  # noqa
                     return ("raised", e, parent, before)
                 return ("ok", child, parent, before)
-            for tape, res in C.explore(run, "complete", horizon=60, float_menu=MENU_HALF):
+            for tape, res in _capped(C.explore(run, "complete", horizon=60, float_menu=MENU_HALF, max_execs=CAP2), acc):
                 acc.transitions += 1
                 acc.traces += 1
                 tag, val, parent, before = res
@@ -407,7 +492,7 @@ def shard_twostep(s):
                         b1 = snap(c1)
                         c2 = do_move(m2, c1, set(F2))
                         return c1, b1, c2
-                    for tape, res in C.explore(lambda t: _guard(run, t), "complete", horizon=60, float_menu=MENU_HALF):
+                    for tape, res in _capped(C.explore(lambda t: _guard(run, t), "complete", horizon=60, float_menu=MENU_HALF, max_execs=CAP2), acc):
                         acc.transitions += 1
                         acc.traces += 1
                         case = {"kind": "twostep", "root": root, "moves": [m1, m2], "frozen": [list(F1), list(F2)], "tape": tape.choices()}
@@ -459,7 +544,7 @@ def shard_sharedfrozen(s):
                 else:
                     c = getattr(p2, move)(F)
                 return p2, b2, c, sorted(F)
-            for tape, res in C.explore(lambda t: _guard(run, t), "complete", horizon=60, float_menu=MENU_HALF):
+            for tape, res in _capped(C.explore(lambda t: _guard(run, t), "complete", horizon=60, float_menu=MENU_HALF, max_execs=CAP2), acc):
                 acc.transitions += 1
                 acc.traces += 1
                 acc.states += 1
@@ -491,6 +576,7 @@ def shard(s):
 # ------------------------------------------------------------------------------------------------
 def replay(case):
     S()
+    _perm_seen.clear()
     out = []
     if case["kind"] == "world":
         a = core.Acc()
@@ -575,14 +661,14 @@ def run(tier, seed, t0):
         rule="state = one parent sequence (every charge pattern of length 1..%d in a distinct-letter spelling, delta-max cached "
              "or not). swapRes: all (i,j). full_shuffle, swapRandChargeRes, get_shuffled_sequence, SequencePermutants.get_permutant: "
              "COMPLETE tree of all outcomes of the internal random draws (scripted random.Random: every value of every _randbelow, "
-             "both sides of every float comparison) x every frozen subset (as %s). permute_block_swap / permute_cluster_charges: "
+             "both sides of every float comparison) x every frozen subset (as %s) and five frozen sets with members outside the sequence (len, len+1, -1, 10^6). permute_block_swap / permute_cluster_charges: "
              "%d patterns x %d frozen sets, all tapes within %d deviation(s) of %d base tape(s) (VERIF_SEED-derived), horizon 60 choice "
              "points, retry bound %d candidate children (cut executions are 'truncated' and not judged); plus 6 medium-size patterns (10-14 residues, 6-11 residues of one sign in alternating K/R, D/E spelling) x 6-8 base tapes. Chains: BFS over live "
              "objects under swapRes/full_shuffle/swapRandChargeRes x all tapes to the fixpoint of (arrangement, cached) states from "
              "%d roots; two-move sequences with a different single-site frozen set per move (complete trees of both moves); one frozen-set "
              "object reused on a short and then a longer sequence. Oracle per execution: child is a rearrangement, frozen positions keep their residue, child.len / charge "
              "pattern / counts equal a fresh object's, carried delta-max equals a fresh delta-max, with warmed parent caches the child's SCD/delta/FCR/NCPR/counts/hydropathy equal a "
-             "fresh object's, deep snapshot of the parent unchanged, package state unchanged, shuffles and swaps never raise; transitions = executions" % (
+             "fresh object's and its delta-max permutant is a rearrangement of its own residues attaining the fresh delta-max, deep snapshot of the parent unchanged, package state unchanged, shuffles and swaps never raise; transitions = executions" % (
                  Lc, "/".join(fkinds), len(bpats), len(frozens), bound, len(seeds), retry, len(chains)),
         bounds={"L_complete": Lc, "bounded_patterns": len(bpats), "frozen_sets_bounded": len(frozens), "deviations": bound,
                 "base_tapes": len(seeds), "horizon": 60, "retry_bound": retry, "chain_roots": len(chains)},
